@@ -377,25 +377,25 @@ func init() {
 	// associative kinds
 	for _, kind := range []string{"Catalog", "Map"} {
 		kind := kind
-		fromArray := func(a []col.AssociationLike[int, int]) assocLike[int] {
+		fromArray := func(a []col.AssociationLike[int, int]) assocLike[int, int] {
 			if kind == "Catalog" {
 				return col.Catalog[int, int](n).MakeFromArray(a)
 			}
 			return col.Map[int, int](n).MakeFromArray(a)
 		}
-		fromMap := func(m map[int]int) assocLike[int] {
+		fromMap := func(m map[int]int) assocLike[int, int] {
 			if kind == "Catalog" {
 				return col.Catalog[int, int](n).MakeFromMap(m)
 			}
 			return col.Map[int, int](n).MakeFromMap(m)
 		}
-		fromSeq := func(s col.Sequential[col.AssociationLike[int, int]]) assocLike[int] {
+		fromSeq := func(s col.Sequential[col.AssociationLike[int, int]]) assocLike[int, int] {
 			if kind == "Catalog" {
 				return col.Catalog[int, int](n).MakeFromSequence(s)
 			}
 			return col.Map[int, int](n).MakeFromSequence(s)
 		}
-		mutateAssoc := func(c assocLike[int], pos int) bool {
+		mutateAssoc := func(c assocLike[int, int], pos int) bool {
 			c.SetValue(pos+1, -1)
 			c.SetValue(99, -2)
 			c.RemoveValue(pos + 2)
@@ -704,7 +704,7 @@ func execSelfCase(c selfCase, _ core.Source) (res core.Result) {
 			s := col.Set[int](n).MakeFromArray(vals)
 			return fmt.Sprint(s.ContainsAll(operandFor(s)), s.AsArray())
 		case "Catalog.RemoveValues(GetKeys)", "Map.RemoveValues(GetKeys)", "Catalog.GetValues(GetKeys)":
-			var a assocLike[int]
+			var a assocLike[int, int]
 			if c.Op[0] == 'C' {
 				a = col.Catalog[int, int](n).MakeFromArray(assocsN(c.Size))
 			} else {
